@@ -363,6 +363,26 @@ def document(rng, *, wellformed=False):
     return {"bytes": as_bytes, "nl": nl, "headers": headers, "body": body}
 
 
+def doc_from_raw(rng, raw):
+    """a document that serialises a RawMetadata dict (single-line values as headers, the description as body)"""
+    headers = []
+    body = None
+    for key, v in raw.items():
+        if key not in SPEC_FIELDS or v is None:
+            continue
+        name, typ, _ = SPEC_FIELDS[key]
+        if key == "description":
+            body = ["t", v]
+            continue
+        vals = [v] if typ == "str" else (v if typ == "list" else ([", ".join(v)] if typ == "keywords" else
+                                                                     [f"{a}, {b}" for a, b in v.items()]))
+        for x in vals:
+            if "\n" in x or "\r" in x:
+                continue
+            headers.append([spell_name(rng, name), ["t", x]])
+    return {"bytes": rng.random() < 0.5, "nl": "\n", "headers": headers, "body": body}
+
+
 def _q(text):
     return "=?utf-8?q?" + "".join("=%02X" % b if (b > 126 or b < 33 or chr(b) in "=?_") else chr(b) for b in text.encode("utf-8", "surrogatepass")) + "?="
 
